@@ -249,12 +249,13 @@ pub fn scenarios(tier: Tier) -> Vec<NetScenario> {
     {
         let mut c2 = ClientCfg::new(2);
         c2.start_tick = 7;
+        c2.timeout = 2;
         let mut c = SimCfg::base("1-slot server: client 2 denied at tick 7, slot freed at tick 7, stale denials may arrive late", vec![ClientCfg::new(1), c2]);
         c.max_clients = 1;
         c.server_disconnect = Some((7, 1));
         c.fault_from = 7;
         c.horizon = 10;
-        c.tail = 14;
+        c.tail = 24;
         c.fates = vec![NFate::Ok, NFate::Drop, NFate::Delay4, NFate::DupLate3];
         v.push(c);
     }
